@@ -21,6 +21,7 @@ CONSTANTS RECENT,     \* length of the recent-ancestor shortcut of HasTransactio
           NoBlock,    \* "not found" for block queries
           NoTx,       \* "depends on nothing"
           VarBase,    \* radix of the variable-length integers in the tx index keys (128 in the code: binary.AppendUvarint)
+          PoolRefAhead,    \* the pool refuses block refs more than this many blocks ahead of the next block (5 min / interval)
           BeyondHeadStops  \* FALSE = the code: an index entry above the head's height is skipped (continue);
                            \* TRUE = a tempting "optimisation" (break) that is WRONG because keys are not in numeric order
 
@@ -143,16 +144,42 @@ DepOk(p, d, txs, revs, i) ==
        IN ~revs[j]
   ELSE LET e == TxMeta(p, d) IN e # NoEntry /\ ~e.rev
 
-TxAdmissible(p, txs, revs, i) ==
+\* The validity window.  block ref and expiration are uint32 in the code, and ref + exp may exceed 2^32 - 1 (the code
+\* widens to uint64 before adding).  Written as  n - ref <= exp  the comparison never leaves the range of its operands;
+\* traces log ref and exp saturated at 2^31 - 1, which changes no verdict while heights stay below that.
+InWindow(f, n) == f.ref <= n /\ n - f.ref <= f.exp
+
+\* The first rule tx i breaks, in the order the packer's Adopt tests them (the validator tests the same rules; for it
+\* only "ok" matters).  "bad" = badTxError (the pool drops the tx), "later" = errTxNotAdoptableNow (the pool keeps it),
+\* "known" = errKnownTx, "never" = errTxNotAdoptableForever.
+DepFoundInBlock(d, txs, i) == \E j \in 1..(i - 1) : txs[j] = d
+AdmitClass(p, txs, revs, i) ==
   LET t == txs[i]
       n == Num(p) + 1
       f == txinfo[t]
-  IN /\ f.tagok
-     /\ f.ref <= n
-     /\ n <= f.ref + f.exp
-     /\ ~(\E j \in 1..(i - 1) : txs[j] = t)
-     /\ ~HasTx(p, t)
-     /\ (f.dep # NoTx => DepOk(p, f.dep, txs, revs, i))
+  IN IF ~f.tagok THEN "bad"
+     ELSE IF f.ref > n THEN "later"
+     ELSE IF n - f.ref > f.exp THEN "bad"
+     ELSE IF (\E j \in 1..(i - 1) : txs[j] = t) \/ HasTx(p, t) THEN "known"
+     ELSE IF f.dep = NoTx THEN "ok"
+     ELSE IF ~DepFoundInBlock(f.dep, txs, i) /\ TxMeta(p, f.dep) = NoEntry THEN "later"
+     ELSE IF ~DepOk(p, f.dep, txs, revs, i) THEN "never"
+     ELSE "ok"
+TxAdmissible(p, txs, revs, i) == AdmitClass(p, txs, revs, i) = "ok"
+
+\* txpool: TxObject.Evaluate against head h (the pool's admission rule for the next block).  "rejected" = an error
+\* (the pool drops / refuses the tx), "waiting" = not executable yet, "executable".
+PoolClass(h, t) ==
+  LET n == Num(h) + 1
+      f == txinfo[t]
+      m == IF f.dep = NoTx THEN NoEntry ELSE TxMeta(h, f.dep)
+  IN IF n - f.ref > f.exp /\ f.ref <= n THEN "rejected"                       \* expired
+     ELSE IF f.ref > n + PoolRefAhead THEN "rejected"                          \* block ref out of schedule
+     ELSE IF HasTx(h, t) THEN "rejected"                                        \* known tx
+     ELSE IF f.dep # NoTx /\ m = NoEntry THEN "waiting"
+     ELSE IF f.dep # NoTx /\ m.rev THEN "rejected"                             \* dep reverted
+     ELSE IF f.ref > n THEN "waiting"
+     ELSE "executable"
 
 Admissible(p, txs, revs) == \A i \in DOMAIN txs : TxAdmissible(p, txs, revs, i)
 
@@ -292,7 +319,7 @@ CleanHeads == {h \in CheckHeads : blocks[h].clean}
 NoDupOnChain == \A h \in CleanHeads : LET pos == PosOn(h) IN
                   \A t \in DOMAIN txinfo : Cardinality({x \in pos : blocks[x[1]].txs[x[2]] = t}) <= 1
 WindowOk == \A h \in CleanHeads : \A b \in ChainSet(h) : \A i \in DOMAIN blocks[b].txs :
-              LET f == txinfo[blocks[b].txs[i]] IN f.tagok /\ f.ref <= Num(b) /\ Num(b) <= f.ref + f.exp
+              LET f == txinfo[blocks[b].txs[i]] IN f.tagok /\ InWindow(f, Num(b))
 DepsOk == \A h \in CleanHeads : \A b \in ChainSet(h) : \A i \in DOMAIN blocks[b].txs :
             LET d == txinfo[blocks[b].txs[i]].dep IN
             d # NoTx => \E x \in Incl(h, d) :
